@@ -16,14 +16,14 @@ import (
 )
 
 type c10Prog struct {
-	World    sim.Prog   `json:"world"`
-	Replica  int        `json:"replica"`
-	Merge    bool       `json:"merge"`
-	Loader   int        `json:"loader"`
-	N        int        `json:"n"`        // limit selector
-	Supplied []int      `json:"supplied"` // entries loader / hash loader: indices into the log's entries (mod)
-	HeadsOnly bool      `json:"headsOnly"` // entries loader: supply the heads
-	Runs     []loadSpec `json:"runs"`     // >= 3 executions with different concurrency / completion order
+	World     sim.Prog   `json:"world"`
+	Replica   int        `json:"replica"`
+	Merge     bool       `json:"merge"`
+	Loader    int        `json:"loader"`
+	N         int        `json:"n"`         // limit selector
+	Supplied  []int      `json:"supplied"`  // entries loader / hash loader: indices into the log's entries (mod)
+	HeadsOnly bool       `json:"headsOnly"` // entries loader: supply the heads
+	Runs      []loadSpec `json:"runs"`      // >= 3 executions with different concurrency / completion order
 }
 
 func genC10(t *rapid.T) c10Prog {
